@@ -21,11 +21,11 @@ C = {
              text='TLC checks on the model that a typed result always formats back to the path; every edited path is resolved by the implementation and validated (no exception of any class; typed => path() is the input; strict type / fields where the parse is unambiguous).', ref='5 (C06)'),
  'C07': dict(tech='TLC model checking of MC_Search[unfold]: operational pipeline Unfold = declarative Denote on every search of the edit family + replay into unfold_search + TLC trace validation',
              text='Two independent definitions of what a search denotes (the staged pipeline and the set comprehension written from the property text) are proved equal by TLC on the family; unfold_search is then validated against them (set equality, no duplicates, only SpilException).', ref='5 (C07)'),
- 'C08': dict(tech='TLC model checking of MC_Search[findlist] over generated universes + replay into FindInList.find / find_one / exists + TLC trace validation (FindListClauses)',
+ 'C08': dict(tech='TLC model checking of MC_Search[findlist] over generated universes + replay into FindInList.find / find_one / exists / Sid.match and the constructor options do_extrapolate / do_pre_sort + TLC trace validation (FindListClauses, MatchClauses)',
              text='List search is defined in TLA+ down to character-level globbing; TLC checks result shape on the model and the implementation results are validated as sets with a no-duplicate clause.', ref='5 (C08)'),
  'C09': dict(tech='TLC model checking of MC_Search[findlist, with >] (GtOnePerGroup) + replay + TLC trace validation with segment-wise order defined in TLA+ (StrLess over extracted character codes)',
              text='The greatest-per-group semantics (LastOf with SegsLess) is part of the spec; searches with ">" over universes whose names sort below "/" are validated. Where the property\'s precondition (one ">" position in all unfolded forms) is false the line is counted, not compared.', ref='5 (C09)'),
- 'C10': dict(tech='TLC model checking of MC_Search[algebra]: AlgebraHolds invariant for the five rewrite rules on the model + replay of (search, derived searches) + TLC trace validation (AlgebraClauses)',
+ 'C10': dict(tech='TLC model checking of MC_Search[algebra]: AlgebraHolds invariant for the five rewrite rules on the model + replay of (search, derived searches) on FindInList and, over materialised trees, on FindInPaths (local, server) and FindInAll + TLC trace validation (AlgebraClauses, AlgebraFsClauses)',
              text='The derived searches are produced by the specification (never by the harness); the algebra is an invariant on the model and a clause on the observed result sets.', ref='5 (C10)'),
  'C11': dict(tech='TLC model checking of MC_Search[finders] over Store.tla (FindersAgree, JunkChangesNothing; each finder modelled by its own mechanism, routing and constants extracted) + replay on materialised trees (list / local / server / all, clean and with junk) + TLC trace validation',
              text='FindInPaths (glob + re-resolution + type filter), FindInList (string glob) and FindInAll (routing, constants finders) are separate operators; that they agree on type-complete, path-backed searches and that junk changes nothing are invariants checked by TLC; every search is run through the four real finders on trees materialised from the same universes and validated.', ref='5 (C11)'),
@@ -33,9 +33,9 @@ C = {
              text='exists / children / siblings are defined through FindInAll as the code does; their set-theoretic meaning is an invariant of the model; the implementation is validated for every Sid of the universe (existing or not) and for every finder; reads after creates are part of the C15 behaviours.', ref='5 (C12)'),
  'C13': dict(tech='TLC model checking of Cache.tla (full key transparent over all histories; keyword-name key refuted) + guarded hook in spil.util.caching + histories (ordered pairs, random sequences, capacity 4096 and 3, data changes, partially consumed generators) run from pristine forked interpreters under 8 hash seeds + TLC trace validation of every cache decision and every answer (CacheTrace)',
              text='A correct cache is modelled (hit only on a key this very call stored and that was not evicted, LIFO eviction only when full); the recorded decisions of the real wrappers are replayed through it and every top-level answer is compared with the answer of a pristine process for the same call and data epoch, and across hash seeds.', ref='5 (C13)'),
- 'C14': dict(tech='TLC-generated pairs (MC_Core[eqlaws]) and operation sequences (SidHeap: Frozen, EqualIffSameUri) + replay on real Sids with every returned container damaged + TLC trace validation (EqClauses, ImmutTrace: every handle equals its creation value after every operation)',
+ 'C14': dict(tech='TLC-generated pairs (MC_Core[eqlaws]) and operation sequences (SidHeap: Frozen, EqualIffSameUri; 22 operations incl. the copy / deepcopy / pickle protocols) + replay on real Sids with every returned container damaged + TLC trace validation (EqClauses, ImmutTrace: every handle equals its creation value after every operation)',
              text='Sids are values in the specification; the implementation is walked along TLC-generated operation sequences and after each operation the snapshot (string, type, fields, uri, hash) of every live handle is validated against the value bound at creation; equality / hash / order laws are validated on all pairs incl. same-string Sids of different types.', ref='5 (C14)'),
- 'C15': dict(tech='TLC model checking of StoreDyn (all Writer behaviours to a depth; ExistsIff, FailChangesNothing, WriteIsLocal ...) + TLC -simulate behaviours + replay of every behaviour on a scratch tree + stateful TLC trace validation (StoreTrace: model state advanced by the spec action and compared with listing / sidecars / reads, incl. a new Getter and a new process)',
+ 'C15': dict(tech='TLC model checking of StoreDyn (all Writer behaviours to a depth, values of every JSON type; ExistsIff, FailChangesNothing, WriteIsLocal ...) + TLC -simulate behaviours + replay of every behaviour on a scratch tree + stateful TLC trace validation (StoreTrace: model state advanced by the spec action and compared with listing / sidecars / reads, incl. a new Getter and a new process)',
              text='The store is a state machine (tree, sidecars); create / update / set are actions with their failure branches; the guarantees are invariants and action properties over all histories; behaviours generated by TLC are replayed with the real WriteToPaths and the full projected state is validated after every call.', ref='5 (C15)'),
  'C16': dict(tech='TLC-generated family MC_Store[getter] (searches x attribute subsets x encoders) + replay of GetFromPaths / GetFromAll next to FindInPaths on seeded trees + TLC trace validation (GetterClauses)',
              text='The expected record of every found Sid is computed by the spec from the seeded data (SideDataOf) and the encoder; order is compared position-wise with find() of the same process.', ref='5 (C16)'),
@@ -45,7 +45,7 @@ C = {
              text='get_last / get_next / get_new are operators over the tree state following the code path (FindInAll with ">", the configured NextGetter); the workflow guarantees are invariants over all publish histories; every behaviour is replayed with the real API and validated step by step.', ref='5 (C18)'),
  'C19': dict(tech='TLC model checking of MC_Extrapolate (ExtrapolationOK, ReplaceScoped over a grammar of configurations) + replay into extrapolate_templates / pattern_replacing + TLC trace validation',
              text='The declarative statement of the property is checked against the operational Extrapolate on every configuration of the grammar; the real functions are then validated on the same configurations and on the shipped one.', ref='5 (C19)'),
- 'C20': dict(tech='configuration packages generated from the shipped one (renamed keys incl. the leaf key, basetypes, type codes, project; other separators and fixed folders; an inserted level; extrapolation from the leaf types) + for each: fresh extraction, TLC model checking of the C01-C08 (thorough: + C03, C11) families on THAT configuration, replay on the real spil running with it, TLC trace validation',
+ 'C20': dict(tech='configuration packages generated from the shipped one (renamed keys incl. the leaf key and the basetype key, basetypes, type codes, project; other separators and fixed folders; an inserted level; extrapolation from the leaf types; a third path configuration with its own value mapping) + for each: fresh extraction, TLC model checking of the C01-C08 (thorough: + C03, C11) families on THAT configuration, replay on the real spil running with it, TLC trace validation',
              text='The specification never names a key, type or value: everything comes from conf.json, which is extracted anew from each generated package; the same TLC families, replays and trace validations as for C01-C08 are run under every package, so a dependency of the library on the demo names, levels or separators shows as a violation that the shipped configuration does not have.', ref='5 (C20)'),
 }
 checks = []
